@@ -21,7 +21,9 @@ import (
 
 func init() { Registry["C15"] = c15 }
 
-var c15WitnessAnswers = []string{"valid", "valid-70KiB", "valid-unknown-sig-lines", "same-bytes-as-previous-log", "same-bytes-as-next-log", "missing", "wrong-log-key", "no-witness-sig", "invalid-witness-sig", "corrupted", "other-logs-checkpoint", "witness-error", "two-witness-sigs", "wrong-origin", "foreign-witness-sig-only"}
+var c15WitnessAnswers = []string{"valid", "valid-70KiB", "valid-unknown-sig-lines", "same-bytes-as-previous-log", "same-bytes-as-next-log", "missing", "wrong-log-key", "no-witness-sig", "invalid-witness-sig", "corrupted", "other-logs-checkpoint", "witness-error", "two-witness-sigs", "wrong-origin", "foreign-witness-sig-only",
+	// a correctly cosigned checkpoint whose tail is malformed: not a note, must not be pushed
+	"tail-lf", "tail-crlf", "tail-space", "tail-nonl"}
 var c15DistAnswers = []string{"200", "404", "500", "conn-error", "redirect-302", "redirect-307", "204", "200-after-body-unread"}
 
 type c15Log struct {
@@ -47,6 +49,10 @@ type c15Transport struct {
 }
 
 func (t *c15Transport) RoundTrip(r *http.Request) (*http.Response, error) {
+	// As net/http's transport: a request whose context has ended fails.
+	if err := r.Context().Err(); err != nil {
+		return nil, err
+	}
 	var body []byte
 	path := r.URL.EscapedPath()
 	t.all = append(t.all, r.Method+" "+path)
@@ -167,6 +173,18 @@ func c15RunOpt(run *ev.Run, u *uni.U, origins []string, wans, dans []string, war
 			plain := uni.AppendSigLines(u.Sign(text, key.Signer), uni.JunkSigLines(2))
 			_, ws, _ := uni.SplitNote(u.Sign(text, wk.CosigSigner))
 			lg.cp = uni.AppendSigLines(uni.AppendSigLines(plain, ws[0]+"\n"), uni.JunkSigLines(1))
+		case "tail-lf", "tail-crlf", "tail-space", "tail-nonl":
+			good := u.Sign(text, key.Signer, wk.CosigSigner)
+			switch lg.wans {
+			case "tail-lf":
+				lg.cp = append(append([]byte{}, good...), '\n')
+			case "tail-crlf":
+				lg.cp = append(append([]byte{}, good[:len(good)-1]...), '\r', '\n')
+			case "tail-space":
+				lg.cp = append(append([]byte{}, good...), ' ')
+			default:
+				lg.cp = append([]byte{}, good[:len(good)-1]...)
+			}
 		case "wrong-log-key":
 			other := u.K2
 			if key.Name == u.K2.Name {
